@@ -1038,14 +1038,15 @@ Proof.
   apply okf_obj. split.
   - repeat constructor; cbn [In]; intuition discriminate.
   - constructor; [|constructor; [|constructor]].
-    + split; [repeat constructor; cbn; lia|]. cbn [snd]. apply okf_arr.
+    + split; [split; [repeat constructor; cbn; lia|vm_compute; discriminate]|]. cbn [snd]. apply okf_arr.
       constructor; [|constructor; [|constructor; [|constructor; [|constructor; [|constructor]]]]].
       * split; [vm_compute; reflexivity|]. split; [reflexivity|]. right. exact d_0_1_window.
       * split; [vm_compute; reflexivity | reflexivity].
       * split; [vm_compute; reflexivity|]. split; [reflexivity|]. left. reflexivity.
       * cbn. lia.
       * exact Logic.I.
-    + split; [repeat constructor; cbn; lia|]. cbn. repeat constructor; lia.
+    + split; [split; [repeat constructor; cbn; lia|vm_compute; discriminate]|]. cbn [snd ser_ok_floats].
+      split; [repeat constructor; lia|vm_compute; discriminate].
 Qed.
 
 Example sample_floats_roundtrip :
